@@ -36,7 +36,14 @@ Print Assumptions C17_bisect_product_underflow_refuted.
 
 Theorem C17_brentq_product_underflow_refuted :
   PrimFloat.ltb (tiny_f 0) 0 = true /\ PrimFloat.ltb 0 (tiny_f 3) = true /\
-  is_conv_root (brentq_old tiny_f 0 3 xtol_d rtol_d 100 true) 0 0 = true /\
+  is_conv_root (brentq_old tiny_f true 0 3 xtol_d rtol_d 100 true) 0 0 = true /\
   is_conv_root (brentq tiny_f 0 3 xtol_d rtol_d 100 true) 0x1.ffffffffp-1 0x1.00000001p+0 = true.
 Proof. exact brentq_product_underflow_refuted. Qed.
 Print Assumptions C17_brentq_product_underflow_refuted.
+
+Theorem C17_brentq_zero_division_refuted :
+  PrimFloat.ltb (tiny_cubic (-6)) 0 = true /\ PrimFloat.ltb 0 (tiny_cubic 9.375) = true /\
+  is_zero_div (brentq_old tiny_cubic false (-6) 9.375 0x1.a36e2eb1c432dp-14 rtol_d 100 true) = true /\
+  is_conv_root (brentq tiny_cubic (-6) 9.375 0x1.a36e2eb1c432dp-14 rtol_d 100 true) (-6) 9.375 = true.
+Proof. exact brentq_zero_division_refuted. Qed.
+Print Assumptions C17_brentq_zero_division_refuted.
